@@ -66,6 +66,11 @@ pub fn ops_large(n: usize) -> Vec<Op> {
     vec![Op::Push, Op::Extend(1), Op::Extend(n / 2 + 1), Op::Extend(n - 3), Op::Extend(33), Op::Truncate(34), Op::Truncate(n / 2), Op::Truncate(2), Op::Clear]
 }
 
+/// Large slices for large capacities: lengths around 2^9, 2^12 and 2^16.
+pub fn ops_huge(_n: usize) -> Vec<Op> {
+    vec![Op::Push, Op::Extend(511), Op::Extend(512), Op::Extend(513), Op::Extend(4095), Op::Extend(4096), Op::Extend(4097), Op::Extend(65535), Op::Extend(65536), Op::Truncate(4096), Op::Truncate(1), Op::Clear]
+}
+
 /// Ideal capacity-bounded vector.
 struct Ideal {
     v: Vec<u8>,
@@ -88,31 +93,99 @@ impl Ideal {
     }
 }
 
+/// An iterator over the given bytes that announces a chosen `size_hint` (always a truthful one:
+/// lower <= number of items <= upper).
+struct Hinted<'a> {
+    it: core::iter::Copied<core::slice::Iter<'a, u8>>,
+    lo_exact: bool,
+    hi: Option<Option<usize>>, // None = exact, Some(x) = announce x (None = unbounded)
+}
+impl<'a> Iterator for Hinted<'a> {
+    type Item = u8;
+    fn next(&mut self) -> Option<u8> {
+        self.it.next()
+    }
+    fn size_hint(&self) -> (usize, Option<usize>) {
+        let n = self.it.len();
+        (if self.lo_exact { n } else { 0 }, match self.hi {
+            None => Some(n),
+            Some(None) => None,
+            Some(Some(extra)) => Some(n.saturating_add(extra)),
+        })
+    }
+}
+pub const COLLECT_VARIANTS: [&str; 8] = ["slice iter (exact hint)", "hint (0, None)", "hint (0, Some(n))", "hint (0, Some(n+1))", "hint (0, Some(usize::MAX))", "hint (n, None)", "filter adapter", "chain of two halves"];
+fn collect_variant<C: FromIterator<u8>>(s: &[u8], variant: usize) -> C {
+    let h = |lo_exact: bool, hi: Option<Option<usize>>| Hinted { it: s.iter().copied(), lo_exact, hi };
+    match variant {
+        0 => s.iter().copied().collect(),
+        1 => h(false, Some(None)).collect(),
+        2 => h(false, Some(Some(0))).collect(),
+        3 => h(false, Some(Some(1))).collect(),
+        4 => h(false, Some(Some(usize::MAX))).collect(),
+        5 => h(true, Some(None)).collect(),
+        6 => {
+            // every byte passes; the adapter's hint is (0, Some(n + k)) with k dropped sentinels
+            let mut with_gaps: Vec<(bool, u8)> = vec![];
+            for (i, &b) in s.iter().enumerate() {
+                if i % 3 == 1 {
+                    with_gaps.push((false, 0xee));
+                }
+                with_gaps.push((true, b));
+            }
+            with_gaps.push((false, 0xee));
+            with_gaps.into_iter().filter(|x| x.0).map(|x| x.1).collect()
+        }
+        _ => {
+            let (a, b) = s.split_at(s.len() / 2);
+            a.iter().copied().chain(b.iter().copied()).collect()
+        }
+    }
+}
+
 trait Subject: Buffer + core::fmt::Debug + PartialEq {
     const CAP: Option<usize>;
-    fn collect_from(s: &[u8]) -> Self;
+    fn collect_from(s: &[u8]) -> Self {
+        Self::collect_variant(s, 0)
+    }
+    fn collect_variant(s: &[u8], variant: usize) -> Self;
 }
 impl<const N: usize> Subject for ArrayBuf<N> {
     const CAP: Option<usize> = Some(N);
-    fn collect_from(s: &[u8]) -> Self {
-        s.iter().copied().collect()
+    fn collect_variant(s: &[u8], variant: usize) -> Self {
+        collect_variant(s, variant)
     }
 }
 impl Subject for Vec<u8> {
     const CAP: Option<usize> = None;
-    fn collect_from(s: &[u8]) -> Self {
+    fn collect_variant(s: &[u8], _variant: usize) -> Self {
         s.to_vec()
     }
+}
+/// Debug text under several format specifications.
+fn debug_texts<T: core::fmt::Debug>(x: &T, all: bool) -> Vec<String> {
+    if all {
+        vec![format!("{:?}", x), format!("{:x?}", x), format!("{:#?}", x), format!("{:02X?}", x), format!("{:4?}", x)]
+    } else {
+        vec![format!("{:?}", x)]
+    }
+}
+
+fn fresh_byte(k: u32) -> u8 {
+    let h = k.wrapping_mul(0x9E37_79B1) ^ (k >> 7).wrapping_mul(0x85EB_CA6B);
+    ((h >> 24) as u8) | 1 // never zero: distinguishable from never-written storage
 }
 
 /// Runs one operation sequence on a fresh subject; returns findings.
 fn run_seq<S: Subject>(seq: &[Op], full_check: bool, out: &mut Vec<(&'static str, String)>, counts: &mut Counts) {
     let mut s = S::default();
     let mut ideal = Ideal { v: vec![], cap: S::CAP };
-    let mut next_val: u8 = 1;
+    // every written byte comes from a non-periodic sequence (a shifted or misplaced copy, also by
+    // a multiple of 256 or of a page, does not reproduce the expected contents)
+    let mut next_idx: u32 = 1;
     let mut fresh = |n: usize| -> Vec<u8> {
-        let v: Vec<u8> = (0..n).map(|i| next_val.wrapping_add(i as u8)).collect();
-        next_val = next_val.wrapping_add(n as u8);
+        let v: Vec<u8> = (0..n as u32).map(|i| fresh_byte(next_idx.wrapping_add(i))).collect();
+        next_idx = next_idx.wrapping_add(n as u32);
         v
     };
     for (i, op) in seq.iter().enumerate() {
@@ -150,15 +223,40 @@ fn run_seq<S: Subject>(seq: &[Op], full_check: bool, out: &mut Vec<(&'static str
         }
     }
     if full_check {
-        let c = S::collect_from(&ideal.v);
-        if &c[..] != &ideal.v[..] {
-            out.push(("C18 collecting an iterator does not yield exactly its bytes", format!("{:?} vs {:?}", &c[..], ideal.v)));
+        let all_formats = ideal.v.len() <= 1024;
+        let texts = debug_texts(&s, all_formats);
+        for variant in 0..COLLECT_VARIANTS.len() {
+            if S::CAP.is_none() && variant > 0 {
+                break;
+            }
+            let c = S::collect_variant(&ideal.v, variant);
+            counts.inc("collections from an iterator");
+            if &c[..] != &ideal.v[..] {
+                out.push(("C18 collecting an iterator does not yield exactly its bytes", format!("{}: {:?} vs {:?}", COLLECT_VARIANTS[variant], &c[..], ideal.v)));
+                continue;
+            }
+            if !(c == s) || !(s == c) {
+                out.push(("C18 equality depends on more than the visible contents", format!("contents {:?}: buffer reached by operations != buffer collected from the same bytes ({})", ideal.v, COLLECT_VARIANTS[variant])));
+            }
+            // the same visible contents reached by another history (other stale bytes behind the
+            // logical length) must print identically, whatever the format specification
+            if variant == 0 && debug_texts(&c, all_formats) != texts {
+                out.push(("C18 Debug output depends on more than the visible contents", format!("{:?} (reached by operations) vs {:?} (collected from the same bytes)", s, c)));
+            }
         }
-        if !(c == s) || !(s == c) {
-            out.push(("C18 equality depends on more than the visible contents", format!("contents {:?}: buffer reached by operations != buffer collected from the same bytes", ideal.v)));
+        // ... and so must a buffer of another capacity holding the same contents
+        if S::CAP.is_some() && ideal.v.len() <= 300 {
+            let other: ArrayBuf<300> = ideal.v.iter().copied().collect();
+            if debug_texts(&other, all_formats) != texts {
+                out.push(("C18 Debug output depends on more than the visible contents", format!("{:?} vs {:?} (ArrayBuf<300> holding the same contents)", s, other)));
+            }
+            let other: ArrayBuf<301> = ideal.v.iter().copied().collect();
+            if debug_texts(&other, all_formats) != texts {
+                out.push(("C18 Debug output depends on more than the visible contents", format!("{:?} vs {:?} (ArrayBuf<301> holding the same contents)", s, other)));
+            }
         }
-        if format!("{:?}", s) != format!("{:?}", ideal.v) || format!("{:x?}", s) != format!("{:x?}", ideal.v) || format!("{:#?}", s) != format!("{:#?}", ideal.v) {
-            out.push(("C18 Debug output depends on more than the visible contents", format!("{:?} vs {:?}", s, ideal.v)));
+        if texts == debug_texts(&ideal.v, all_formats) {
+            counts.inc("Debug text equals that of the contents as a slice (informative, not demanded)");
         }
         // different contents must compare unequal
         if !ideal.v.is_empty() {
@@ -253,6 +351,10 @@ macro_rules! dispatch {
             40 => $f::<ArrayBuf<40>>($($a),*),
             64 => $f::<ArrayBuf<64>>($($a),*),
             300 => $f::<ArrayBuf<300>>($($a),*),
+            1024 => $f::<ArrayBuf<1024>>($($a),*),
+            4097 => $f::<ArrayBuf<4097>>($($a),*),
+            8192 => $f::<ArrayBuf<8192>>($($a),*),
+            70000 => $f::<ArrayBuf<70000>>($($a),*),
             _ => machinery("e5: capacity not instantiated"),
         }
     };
@@ -339,6 +441,16 @@ pub fn run(tier: Tier) -> ! {
         nseq += s;
         nops += o;
     }
+    for (n, depth) in [(1024usize, tier.pick(3, 4)), (4097, tier.pick(3, 4)), (8192, tier.pick(3, 4)), (70000, tier.pick(3, 4))] {
+        let name = format!("ArrayBuf<{}>", n);
+        let (t, c, s, o) = dispatch!(n, explore, &name, ops_huge(n), depth);
+        ctx.log(&format!("{} with large slices: {} sequences up to depth {}, {} violation instances", name, s, depth, t.total()));
+        runs.push(J::obj().set("subject", name).set("depth", depth).set("alphabet", "push, extend(511 | 512 | 513 | 4095 | 4096 | 4097 | 65535 | 65536), truncate(4096 | 1), clear").set("sequences", s));
+        tally.merge(t);
+        counts.merge(&c);
+        nseq += s;
+        nops += o;
+    }
     {
         let depth = tier.pick(5, 6);
         let (t, c, s, o) = explore::<Vec<u8>>("Vec", ops_for(3), depth);
@@ -349,7 +461,7 @@ pub fn run(tier: Tier) -> ! {
         nseq += s;
         nops += o;
     }
-    counts.require(&["operations answered OutOfMemory"]);
+    counts.require(&["operations answered OutOfMemory", "collections from an iterator"]);
     let cov = J::obj()
         .set("states", nseq)
         .set("transitions", nops)
@@ -357,10 +469,10 @@ pub fn run(tier: Tier) -> ! {
         .set("golden_vectors", g)
         .set("evaluations", nseq)
         .set("distinct_nontrivial", nseq - 1)
-        .set("rule", "every operation sequence over {push(fresh), extend_from_slice(0..N+1 fresh bytes), truncate(0..N+1), clear} up to the stated depth, no merging (states = sequences, transitions = operations executed on the real buffer and compared with the ideal vector after every step); at the end of every sequence: from_iter of the contents, == both ways, {:?} {:x?} {:#?}, and inequality with three neighbouring contents; non-trivial = every non-empty sequence")
+        .set("rule", "every operation sequence over {push(fresh), extend_from_slice(0..N+1 fresh bytes), truncate(0..N+1), clear} up to the stated depth, no merging (states = sequences, transitions = operations executed on the real buffer and compared with the ideal vector after every step); at the end of every sequence: from_iter of the contents through 8 iterator shapes (exact, loose and unbounded size hints, filter, chain), == both ways with each, Debug text under 5 format specifications equal to that of a buffer holding the same contents after another history and of buffers of two other capacities, and inequality with three neighbouring contents; written bytes come from a non-periodic non-zero sequence; non-trivial = every non-empty sequence")
         .set("samples", vec!["push extend3 truncate1 push clear", "extend5 truncate2 extend3", "truncate4 push"])
         .set("runs", J::Arr(runs))
         .set("outcomes", counts.to_json())
         .set("exhaustive", true);
-    finish(&ctx, cov, vec!["ideal bounded vector (Vec<u8> + capacity test)".into(), "capacities N in {0,1,2,3,4,6}; from_iter with more than N items panics by documented design and is outside the property".into()], tally, &replay)
+    finish(&ctx, cov, vec!["ideal bounded vector (Vec<u8> + capacity test)".into(), "capacities N in {0,1,2,3,4,6} with the full operation alphabet, {40,64,300} with coarse operations, {1024,4097,8192,70000} with slices of 511..65536 bytes; from_iter with more than N items panics by documented design and is outside the property".into()], tally, &replay)
 }
